@@ -10,8 +10,12 @@
 (*     with the JIT path on the same UFL objects.                          *)
 (* A FILE CASE c (harness/s3.py, pair worker):                             *)
 (*   c.stem        the file stem as a sequence of one-character strings    *)
+(*   c.inv         how the compiler was invoked: [o, n, mode, d] = the     *)
+(*                 -o/--outfile stem, the -n/--namespace prefix, the -d    *)
+(*                 output directory ("" = not given), mode "i" (-i FILE)   *)
+(*                 or "pos" (positional FILE)                              *)
 (*   c.objects     <<[kind |-> "form"|"expression", name |-> STRING]>>     *)
-(*   c.files       names of the files the run wrote                        *)
+(*   c.files       the files the run wrote, relative to the working dir    *)
 (*   c.generated, c.compiles, c.links                                      *)
 (*   c.declared    <<[type, name]>> extern declarations of the header      *)
 (*   c.defined     <<[type, name]>> ufcx objects defined by the source     *)
@@ -38,7 +42,18 @@ San(cs, inrun) ==
   IF cs = <<>> THEN ""
   ELSE IF Head(cs) \in IdentChars THEN Head(cs) \o San(Tail(cs), FALSE)
   ELSE IF inrun THEN San(Tail(cs), TRUE) ELSE "_" \o San(Tail(cs), TRUE)
-Prefix(c) == San(c.stem, FALSE)
+Stem(c) == San(c.stem, FALSE)
+
+\* Invocation variants.  -o and -n take a list (nargs='*') and would swallow a positional file
+\* name, so they go with -i only (as the --help text says).
+Invocations ==
+  {v \in [o : {"", "kern_out"}, n : {"", "my_ns"}, mode : {"i", "pos"}, d : {"", "gen"}] :
+      v.mode = "pos" => (v.o = "" /\ v.n = "")}
+\* -o only renames the generated files; -n only renames the objects; each defaults,
+\* independently of the other, to the sanitised stem of the UFL file; -d only moves the files
+OutStem(c) == IF c.inv.o # "" THEN c.inv.o ELSE Stem(c)
+Prefix(c) == IF c.inv.n # "" THEN c.inv.n ELSE Stem(c)
+OutDir(c) == IF c.inv.d # "" THEN c.inv.d \o "/" ELSE ""
 
 \* form_<prefix>_<name> / expression_<prefix>_<name>; unnamed objects are numbered within their kind
 KindIndex(c, k) == Cardinality({j \in 1..(k - 1) : c.objects[j].kind = c.objects[k].kind})
@@ -80,7 +95,8 @@ Broken(c) ==
   IN
   IF ~c.generated THEN <<<<"generated", c.files>>>>
   ELSE
-     (IF Range(c.files) = {P \o ".h", P \o ".c"} THEN <<>> ELSE <<<<"files", <<P, c.files>>>>>>)
+     (IF Range(c.files) = {OutDir(c) \o OutStem(c) \o ".h", OutDir(c) \o OutStem(c) \o ".c"} THEN <<>>
+      ELSE <<<<"files", <<OutDir(c) \o OutStem(c), c.files>>>>>>)
   \o (IF c.compiles THEN <<>> ELSE <<<<"compiles_standalone", c.cc_message>>>>)
   \o (IF ~c.compiles THEN <<>> ELSE
         \* every object declared in the header is defined (with that type) in the source and exported
